@@ -140,6 +140,9 @@ func c04Gen(r *rand.Rand, tier string) []Case {
 			fmt.Sprintf("scall 0 1 0 1 ? ? ? # method=%s amt=abs:500", method),
 			fmt.Sprintf("scall 0 1 0 0 ? ? ? # method=%s amt=abs:700", method),
 			fmt.Sprintf("scall 0 1 0 2 ? ? ? # method=%s amt=abs:100", method),
+			fmt.Sprintf("scall 0 1 0 1 ? ? ? # method=%s amt=abs:50 swallow=1", method),
+			fmt.Sprintf("scall 0 1 0 0 ? ? ? # method=%s amt=abs:100000 swallow=1", method),
+			fmt.Sprintf("scall 0 1 0 0 ? ? ? # method=%s amt=abs:10 swallow=1", method),
 			"unjailval 0",
 			fmt.Sprintf("sallow revoke 0 - ? # method=%s", method),
 		})
@@ -176,7 +179,11 @@ func c04Gen(r *rand.Rand, tier string) []Case {
 				deleg := pick(r, []int{0, 0, 1, 1, 2})
 				val := r.Intn(5) // ids beyond the existing validators are clamped by the executor
 				amt := pick(r, []string{"lim-1", "lim", "lim+1", "half", fmt.Sprintf("abs:%d", 1+r.Intn(3000))})
-				c = append(c, fmt.Sprintf("scall 0 %d %d %d ? ? ? # method=%s amt=%s", caller, deleg, val, method, amt))
+				sw := ""
+				if caller == 1 && r.Intn(3) == 0 {
+					sw = " swallow=1"
+				}
+				c = append(c, fmt.Sprintf("scall 0 %d %d %d ? ? ? # method=%s amt=%s%s", caller, deleg, val, method, amt, sw))
 			}
 		}
 		if r.Intn(3) == 0 {
@@ -587,12 +594,21 @@ func c04Exec(c Case) (outs []string, fails []Failure, tags []string) {
 					} else if os.Getenv("VERIF_DEBUG") != "" {
 						fmt.Fprintln(os.Stderr, "C04 scall rejected:", res.Log)
 					}
+				} else if kv["swallow"] == "1" {
+					// the contract makes the call with a low-level CALL and carries on whatever the result: the transaction
+					// succeeds; whether the call did anything is read off the state
+					o := puppetRun(big.NewInt(0), puppetCall(0, stk, big.NewInt(0), in), 12_000_000)
+					failed = o.code != 0 || o.failed
+					tags = append(tags, "call-result-ignored-by-contract")
 				} else {
 					o := puppetRun(big.NewInt(0), puppetCall(1, stk, big.NewInt(0), in), 12_000_000)
 					failed = o.code != 0 || o.failed
 				}
 				post, _ := c04Grant(method)
 				b1 := []*big.Int{bonded(E.Addr), bonded(puppetAddr)}
+				if kv["swallow"] == "1" && !failed && post == pre && b1[0].Cmp(b0[0]) == 0 && b1[1].Cmp(b0[1]) == 0 {
+					failed = true // the inner call was refused and left nothing behind
+				}
 				checkThird()
 				if failed {
 					out = "reject"
